@@ -583,3 +583,34 @@ Definition eos_flag (peer_gone : bool) (e : eos_seen) : option bool :=
   | CleanEos => Some true
   | ResetEos => if peer_gone then Some true else None
   end.
+
+(* ------------------------------------------------------------------ *)
+(* Close by the proxy is graceful; tunnels do not wait for each other   *)
+(* ------------------------------------------------------------------ *)
+
+(* [Join] closes the connection the proxy dialled while bytes may still be
+   queued toward a slow target.  A plain close lets the kernel send them; with
+   SO_LINGER 0 on the dialled connection the close is a reset and the queue is
+   dropped.  [sets_linger0]: proxy.go calls SetLinger somewhere. *)
+Definition proxy_close_discards (sets_linger0 : bool) (queued : N) : N :=
+  if sets_linger0 then queued else 0%N.
+
+(* Several tunnels through one listener: the LTS of one tunnel mentions nothing
+   of another.  On a shaped listener the two copy halves go through a
+   listener-wide token bucket; that is the same as "no shared state" for
+   progress only if no lock of the bucket is held across a blocking read of one
+   tunnel's connection. *)
+Definition tunnel_may_wait_for_another (copy_unlocked : bool) : bool := negb copy_unlocked.
+
+(* two tunnels side by side: labels tagged with the tunnel they belong to *)
+Fixpoint run2 (c : cfg) (sa sb : st) (tr : list (bool * label)) : option (st * st) :=
+  match tr with
+  | [] => Some (sa, sb)
+  | (true, l) :: tr' =>
+      match step c sa l with None => None | Some sa' => run2 c sa' sb tr' end
+  | (false, l) :: tr' =>
+      match step c sb l with None => None | Some sb' => run2 c sa sb' tr' end
+  end.
+
+Definition proj (who : bool) (tr : list (bool * label)) : list label :=
+  map snd (filter (fun x => Bool.eqb (fst x) who) tr).
